@@ -933,3 +933,81 @@ Proof.
     rewrite app_nth2 by (rewrite map_length, seq_length; lia). apply nth_repeat'.
     rewrite map_length, seq_length. lia.
 Qed.
+
+(* ---- the gathered dicts, explicitly (traversal keys without duplicates) ---- *)
+Lemma set_key_fst k v d : map fst (set_key k v d) = map fst d.
+Proof.
+  induction d as [|[k' x] r IH]; [reflexivity|]. cbn [set_key].
+  destruct (key_eqb k k'); cbn [map fst]; [reflexivity|]. f_equal. exact IH.
+Qed.
+
+Lemma fold_put_keys (V : key -> list gs) Wg j (G : list gdict) : j < Wg -> List.length G = Wg ->
+  forall r, (forall k, In k r -> List.length (V k) = Wg) ->
+  map fst (nth j (fold_left (fun gt k => put k (V k) gt) r G) []) = map fst (nth j G []).
+Proof.
+  intros Hj HG. induction r as [|k1 r IH] using rev_ind; intros HV; [reflexivity|].
+  assert (HVr : forall k, In k r -> List.length (V k) = Wg) by (intros k Hk; apply HV, in_or_app; left; exact Hk).
+  assert (HV1 : List.length (V k1) = Wg) by (apply HV, in_or_app; right; left; reflexivity).
+  destruct (fold_put_spec V Wg j G Hj HG r HVr) as (Hl & _ & _).
+  rewrite fold_left_app. cbn [fold_left]. unfold put at 1.
+  rewrite (nth_map2 (set_key k1) (V k1) _ j GEmpty [] []) by lia. rewrite set_key_fst. apply IH, HVr.
+Qed.
+
+Lemma gdict_ext (v : key -> gs) : forall d : gdict, NoDup (map fst d) ->
+  (forall k, In k (map fst d) -> get_key k d = Some (v k)) -> d = map (fun k => (k, v k)) (map fst d).
+Proof.
+  induction d as [|[k x] r IH]; intros Hnd H; [reflexivity|]. cbn [map fst] in *.
+  inversion Hnd as [|? ? Hnin Hnd']; subst.
+  pose proof (H k (or_introl eq_refl)) as Hk. cbn [get_key] in Hk. rewrite key_eqb_refl in Hk.
+  inversion Hk; subst. f_equal. apply IH; [exact Hnd'|].
+  intros k' Hk'. specialize (H k' (or_intror Hk')). cbn [get_key] in H.
+  destruct (key_eqb k' k) eqn:E; [|exact H]. apply key_eqb_eq in E. subst k'. contradiction.
+Qed.
+
+Lemma template_fst order : map fst (template order) = order.
+Proof. unfold template. rewrite map_map. cbn [fst]. apply map_id. Qed.
+
+Lemma gath_of_slot V order Wg j : NoDup order -> (forall k, In k order -> List.length (V k) = Wg) -> j < Wg ->
+  nth j (gath_of V order Wg) [] = map (fun k => (k, nth j (V k) GEmpty)) order.
+Proof.
+  intros Hnd HV Hj.
+  assert (Hk : map fst (nth j (gath_of V order Wg) []) = order).
+  { unfold gath_of. rewrite (fold_put_keys V Wg j _ Hj (repeat_length _ _) order HV).
+    rewrite nth_repeat' by exact Hj. apply template_fst. }
+  rewrite (gdict_ext (fun k => nth j (V k) GEmpty) (nth j (gath_of V order Wg) [])).
+  - rewrite Hk. reflexivity.
+  - rewrite Hk. exact Hnd.
+  - rewrite Hk. intros k Hin. apply (gath_of_spec V order Wg HV); assumption.
+Qed.
+
+(* slot j of gathered_states: rank j's ideal values in traversal order (j < n), else the fillers *)
+Definition ideal_gath (n Wg : nat) (order : list key) (iv : key -> nat -> gs) (tl : key -> gs) : list gdict :=
+  map (fun j => map (fun k => (k, if Nat.ltb j n then iv k j else tl k)) order) (seq 0 Wg).
+
+Lemma gath_of_explicit n Wg order iv tl : NoDup order -> n <= Wg ->
+  gath_of (fun k => map (iv k) (seq 0 n) ++ repeat (tl k) (Wg - n)) order Wg = ideal_gath n Wg order iv tl.
+Proof.
+  intros Hnd HW. set (V := fun k => map (iv k) (seq 0 n) ++ repeat (tl k) (Wg - n)).
+  assert (HV : forall k, In k order -> List.length (V k) = Wg).
+  { intros k _. unfold V. rewrite app_length, map_length, seq_length, repeat_length. lia. }
+  apply (@nth_ext gdict _ _ [] []).
+  - rewrite (proj1 (gath_of_spec V order Wg HV)). unfold ideal_gath. rewrite map_length, seq_length. reflexivity.
+  - rewrite (proj1 (gath_of_spec V order Wg HV)). intros j Hj.
+    rewrite (gath_of_slot V order Wg j Hnd HV Hj). unfold ideal_gath. rewrite nth_map_seq by exact Hj.
+    apply map_ext. intros k. f_equal. unfold V. destruct (Nat.ltb_spec j n) as [Hlt|Hge].
+    + rewrite app_nth1 by (rewrite map_length, seq_length; exact Hlt). apply nth_map_seq, Hlt.
+    + rewrite app_nth2 by (rewrite map_length, seq_length; lia). apply nth_repeat'.
+      rewrite map_length, seq_length. lia.
+Qed.
+
+Theorem mixed_collection_exact g dst Wg (mds : nat -> mdict) (order : list key)
+        (iv : key -> nat -> gs) (tl : key -> gs) : let n := List.length g in
+  n <= Wg -> NoDup order ->
+  (forall k, In k order -> exists ss, (forall i, i < n -> lookup2 (mds i) k = Some (ss i)) /\
+                                      ideal_family g dst Wg ss (iv k) (tl k)) ->
+  run_all (respond g) (map (fun i => sync_states dst i Wg (mds i) order) (seq 0 n))
+  = Some (map (fun i => Ok (if receives dst i then Some (ideal_gath n Wg order iv tl) else None)) (seq 0 n)).
+Proof.
+  intros n HW Hnd H. rewrite <- (gath_of_explicit n Wg order iv tl Hnd HW).
+  apply (sync_states_run g dst Wg mds _ order H).
+Qed.
